@@ -37,6 +37,11 @@ def pop (v : AVec α) : Option (α × AVec α) :=
   match v.live.reverse with
   | [] => none
   | x :: r => some (x, ⟨r.reverse, x :: v.stale⟩)
+/-- `try_insert(index, x)` with capacity `cap`: the tail moves up by one, overwriting the first
+unused slot (`save_initial_rules` inserts the saved row below the live rows) -/
+def tryInsert (cap : Nat) (v : AVec α) (i : Nat) (x : α) : Option (AVec α) :=
+  if v.live.length < cap ∧ i ≤ v.live.length then some ⟨v.live.take i ++ x :: v.live.drop i, v.stale.tail⟩
+  else none
 /-- everything the public API can observe: `len`, indexing, `last`, `as_slice`, iteration -/
 def observe (v : AVec α) : List α := v.live
 
